@@ -34,6 +34,7 @@ def main():
                     help="use /verif/refactors/*/patch.diff: behaviour-preserving changes, EVERY check must stay quiet")
     ap.add_argument("--tier", default="quick")
     ap.add_argument("--out", default="mutants-last.json")
+    ap.add_argument("--with", dest="extra", default="", help="comma-separated extra checks to run besides the own one")
     a = ap.parse_args()
     if a.refactors:
         a.others = True
@@ -78,7 +79,8 @@ def _run_items(a, items, results, check_cmd):
                        env={**os.environ, "PYTHONDONTWRITEBYTECODE": "1"})
                 tests = t.stdout.strip().splitlines()[-1] if t.stdout.strip() else f"rc={t.returncode}"
             row = {"mutant": name, "property": prop, "tests": tests, "checks": {}}
-            for cid in ([prop] + ([c for c in CLAIMED if c != prop] if a.others else [])):
+            extra = [c for c in a.extra.split(",") if c and c != prop]
+            for cid in ([prop] + ([c for c in CLAIMED if c != prop] if a.others else extra)):
                 env = {**os.environ, "VERIF_REPO": scratch, "VERIF_OUT": out}
                 if a.runs:
                     env["VERIF_RUNS"] = str(a.runs)
